@@ -825,3 +825,49 @@ def true_atoms(p: State) -> List[tuple]:
         if c.atom[0] != "loop0":
             add(c.atom, c.truth)
     return out
+
+
+
+HASH_SLOTS = ("_hash_func", "_hash_function", "_ExpandingBloomFilter__hash_func", "_CuckooFilter__hash_func")
+
+
+def strategy_calls(prog: Program, ctx: str, fname: str):
+    """{(slot field, canonical arguments)} of the calls a method makes - helpers looked through - to the hashing strategy the object holds"""
+    f = prog.cls(ctx).find_method(fname)
+    out = {}
+    if f is None:
+        return out
+    for p in paths(prog, ctx, f, force_inline=("hashes",)):
+        for e in p.events:
+            if e.kind == "call" and e.name == "<slot>" and e.d.get("slot") is not None:
+                sl = strip_epochs(e.slot)
+                if sl[0] == "f" and sl[2] in HASH_SLOTS:
+                    out.setdefault((sl[2], tuple(canon(strip_epochs(a)) for a in e.args)), e)
+    return out
+
+
+def query_hashes_like_update(prog: Program, ctx: str, query: str, update: str = "add"):
+    """None when every call `query` makes to the hashing strategy is a call `update` makes too (same arguments: same key, same depth);
+    else (event, text).  A look-up that probes with another depth relies on hash k of a depth-d call not depending on d, which the
+    strategy interface does not promise (a strategy may cut one digest into `depth` pieces)"""
+    u, q = strategy_calls(prog, ctx, update), strategy_calls(prog, ctx, query)
+    if not u or not q:
+        return None
+    extra = [k for k in q if k not in u]
+    # a probe made only where the strategy is known to be one of the shipped ones (identity test on the slot) is exempt: for those, hash k
+    # does not depend on the requested depth (C18.prefix-stable)
+    SHIPPED = {"probables.hashes.default_fnv_1a", "probables.hashes.default_md5", "probables.hashes.default_sha256"}
+    f = prog.cls(ctx).find_method(query)
+    guarded = set()
+    for p in paths(prog, ctx, f, force_inline=("hashes",)):
+        for e in p.events:
+            if e.kind == "call" and e.name == "<slot>" and e.d.get("slot") is not None:
+                sl = strip_epochs(e.slot)
+                k = (sl[2], tuple(canon(strip_epochs(a)) for a in e.args)) if sl[0] == "f" else None
+                if k in extra and not any(c.truth and strip_epochs(c.atom)[0] == "cmp" and strip_epochs(c.atom)[1] in ("is", "==") and strip_epochs(c.atom)[2] == sl
+                                          and strip_epochs(c.atom)[3][0] == "func" and strip_epochs(c.atom)[3][1] in SHIPPED for c in p.conds[:e.ncond]):
+                    guarded.add(k)  # (here: seen at least once WITHOUT the identity test)
+    extra = [k for k in extra if k in guarded]
+    if extra:
+        return q[extra[0]], f"{query} calls the hashing strategy with ({', '.join(nshow(a) for a in extra[0][1])}), {update} with ({', '.join(nshow(a) for a in next(iter(u))[1])})"
+    return None
